@@ -442,6 +442,7 @@ pub fn eval_cli(c: &TCase) -> CaseOutcome {
             return CaseOutcome::Fail { key: "c15|cli|runaway-output".into(), what: "output beyond 8 MiB for a program that cannot start".into(), replay };
         }
         Status::Signal(s) => return CaseOutcome::Fail { key: format!("c15|cli|signal-{}", s), what: format!("killed by signal {} {}", s, out.err_str().lines().last().unwrap_or("")), replay },
+        Status::Blocked => return CaseOutcome::Fail { key: "c15|cli|blocked".into(), what: "the emulator went to sleep without using CPU time although its input was complete (it waits for something that cannot come)".into(), replay },
         Status::Exit(code) => {
             let utf8 = std::str::from_utf8(&bytes).is_ok();
             let ok = *code == 0 || (*code == 1 && !utf8 && out.out_str().contains("Error Reading file"));
